@@ -22,11 +22,19 @@ def fdelta(freq):
     return pd.Timedelta(to_offset(freq))
 
 
-def gen_grid(rng, freqs=None, tzs=None, units=None, steps=(6, 36), hour_offsets=(0, 0, 0, 6, 12, 18), anchors=None):
+def gen_grid(rng, freqs=None, tzs=None, units=None, steps=(6, 36), hour_offsets=(0, 0, 0, 6, 12, 18), anchors=None, dst=False):
     """-> grid dict {start,end,freq,unit,tz} with start/end as naive local ISO strings."""
     freqs = freqs or FREQS
     tzs = TZS if tzs is None else tzs
     units = units or ['h', 'h', 'd', 'min']
+    if dst:
+        # horizon that contains a daylight-saving switch: zone and start day matched, start at local midnight of the switch day or the day before
+        eu = rng.random() < 0.6
+        tzs = ['CET', 'Europe/Berlin'] if eu else ['America/New_York']
+        anchors = (['2021-03-28', '2021-10-31', '2021-03-27', '2021-10-30'] if eu else ['2021-03-14', '2021-11-07', '2021-03-13', '2021-11-06'])
+        hour_offsets = (0,)
+        steps = (max(steps[0], 8), max(steps[1], 30))
+        freqs = ['d', 'd', 'd', 'h', '2h']      # only calendar-day steps differ in real length; hourly grids matter for coarse (daily) assets
     for _ in range(50):
         freq = pick(rng, freqs)
         tz = pick(rng, tzs)
@@ -35,6 +43,10 @@ def gen_grid(rng, freqs=None, tzs=None, units=None, steps=(6, 36), hour_offsets=
         s = pd.Timestamp(pick(rng, anchors or ANCHORS)) + pd.Timedelta(hours=int(pick(rng, list(hour_offsets))))
         if freq.endswith('d'):
             T = min(T, 14)
+        if dst and freq == '2h':
+            T = max(T, 16)
+        if dst and freq in ('h', '30min') and s.day in (27, 30, 13, 6):
+            T = max(T, 30 if freq == 'h' else 58)
         if not local_ok(str(s), tz):
             continue
         try:
